@@ -183,6 +183,12 @@ func c03Compare(w *World) {
 	}
 }
 
+type c05Pend struct {
+	purchaser string
+	amt       *big.Int
+	denom     string
+}
+
 // ---------------------------------------------------------------- C02
 
 type c02State struct {
@@ -557,16 +563,11 @@ func init() {
 			ctx := w.C.Ctx()
 			w.Notes["c05.snap"] = snapAll(w, ctx)
 			k := w.C.App.EnterpriseKeeper
-			type pend struct {
-				purchaser string
-				amt       *big.Int
-				denom     string
-			}
-			var ps []pend
+			var ps []c05Pend
 			for _, id := range k.GetAllAcceptedPurchaseOrders(ctx) {
 				po, ok := k.GetPurchaseOrder(ctx, id)
 				if ok && po.Status == enttypes.StatusAccepted {
-					ps = append(ps, pend{keyOfBech32(po.Purchaser), po.Amount.Amount.BigInt(), po.Amount.Denom})
+					ps = append(ps, c05Pend{keyOfBech32(po.Purchaser), po.Amount.Amount.BigInt(), po.Amount.Denom})
 				}
 			}
 			w.Notes["c05.pending"] = ps
@@ -582,6 +583,13 @@ func init() {
 			for _, a := range w.Book {
 				if after[a.Key()].locked.Cmp(before[a.Key()].locked) > 0 {
 					credited[a.Key()] = true
+				}
+			}
+			// ... and the purchasers of the orders that were queued for completion when the block began, whether or not
+			// their locked balance moved (a completion that credits spendable coins instead of locked ones)
+			if ps, ok := w.Notes["c05.pending"].([]c05Pend); ok {
+				for _, p := range ps {
+					credited[p.purchaser] = true
 				}
 			}
 			for _, a := range w.Book {
